@@ -289,7 +289,6 @@ density_sketch<T, K, A> density_sketch<T, K, A>::deserialize(std::istream& is, c
   check_num_retained(num_retained);
 
   // levels arrays
-  size_t pt_size = sizeof(T) * dim;
   Levels levels(allocator);
   int64_t num_to_read = num_retained; // num_retrained is uint32_t so this allows error checking
   while (num_to_read > 0) {
@@ -299,9 +298,14 @@ density_sketch<T, K, A> density_sketch<T, K, A>::deserialize(std::istream& is, c
     Level lvl(allocator);
     lvl.reserve(level_size);
     for (uint32_t i = 0; i < level_size; ++i) {
-      Vector pt(dim, 0, allocator);
-      read(is, pt.data(), pt_size);
-      if (!is.good()) throw std::runtime_error("error reading from std::istream");
+      // nothing backs dim until the stream has delivered the values: let the point grow with them
+      Vector pt(allocator);
+      while (pt.size() < dim) {
+        const size_t num = std::min<size_t>(dim - pt.size(), 4096);
+        pt.resize(pt.size() + num);
+        read(is, pt.data() + pt.size() - num, num * sizeof(T));
+        if (!is.good()) throw std::runtime_error("error reading from std::istream");
+      }
       lvl.push_back(pt);
     }
     levels.push_back(lvl);
